@@ -300,6 +300,20 @@ def run(ctx):
             for tree in exprgen.parenthesisations(ops):
                 ctx.count('directed_relabel_cases')
                 check_expr(ctx, json.loads(json.dumps(tree)))
+    if ctx.shard == 1 % ctx.nshards:
+        # directed: two mappers pre-wired by one hand-written operator which hands its chains over by their head node / as
+        # segments / one of each (exprgen.Prewired), alone, before a consumer, and inside the scope of twice / fullstack
+        for flavour, (first, second) in itertools.product(('nodes', 'segments', 'mixed'), ((0, 1), (1, 0), (0, 0))):
+            def prewired():
+                return {'op': 'chain', 'left': instantiate(templates[first], counter), 'right': instantiate(templates[second], counter),
+                        'prewired': flavour}
+
+            for ops in ([prewired()], [prewired(), instantiate(templates[0], counter)],
+                        [instantiate(templates[1], counter), prewired(), instantiate(templates[11], counter)],
+                        [prewired(), instantiate(templates[10], counter)]):
+                for tree in exprgen.parenthesisations(ops):
+                    ctx.count('directed_prewired_cases')
+                    check_expr(ctx, json.loads(json.dumps(tree)))
     rng = ctx.rng('random', ctx.shard)
     for _ in range(ctx.pick(240, 9000) // ctx.nshards):
         gen = exprgen.Gen(rng)
